@@ -24,6 +24,7 @@ LEVEL_TEXT = (
     "executed. Exhaustive for <= 3 commands, sampled for 4-5."
     ' The generated graphs are also built through add_command (references by name and as Command objects); cycles made of PrintVars commands and cycles behind saturated feeders are in the built-in slice; a sixth of the cyclic source models also goes through the command-line tool (non-zero exit status, recursive-model message).'
 )
+LEVEL_TEXT += ' Added later: builds that edit a finished program into the cyclic model (through add_command or straight in program.commands) and builds whose argument lists were used before by an acyclic program.'
 LEVEL_NOTE = "Which commands outside the cycle ran before the rejection is not asserted (the statement does not say)."
 RULE = (
     "Cases: {n, adjacency (who references whom), edge kinds, textual order, library}. Enumerated for n<=3; generated for "
